@@ -28,7 +28,29 @@ def chk_delta(seq):
     return None
 
 
-CHECKS = {'delta': chk_delta}
+def chk_delta_history(inp):
+    """get_delta after other queries (phosphorylation, profiles, moves) on the same object"""
+    seq, seed = inp
+    rng = random.Random(seed)
+    o = sp(seq)
+    exp = delta_spec(seq, len(seq))
+    sty = [i + 1 for i, c in enumerate(seq) if c in 'STY']
+    if sty:
+        quiet(o.set_phosphosites, rng.sample(sty, min(len(sty), 3)))
+    for m in rng.sample(['get_kappa_after_phosphorylation', 'get_phosphosequence', 'get_kappa', 'get_Omega', 'get_deltaMax',
+                         'get_SCD', 'get_isoelectric_point', 'get_full_phosphostatus_kappa_distribution'], 4):
+        quiet(getattr(o, m))
+    w = min(len(seq), rng.choice([1, 5, 6]))
+    for m in ('get_linear_FCR', 'get_linear_NCPR', 'get_linear_sigma'):
+        quiet(getattr(o, m), w)
+    quiet(o.clear_phosphosites)
+    got = quiet(o.get_delta)
+    if not close(got, exp, 1e-9, 1e-12):
+        return 'get_delta(%s)=%r after other queries on the same object, the definition gives %s' % (seq, got, float(exp))
+    return None
+
+
+CHECKS = {'delta': chk_delta, 'delta_history': chk_delta_history}
 
 
 def work_patterns(n, seed, both):
@@ -54,6 +76,8 @@ def work_random(seed, count, maxlen):
         seqs.append(a)
         seqs.append(a * 7)
     run_checks(r, 'delta', chk_delta, seqs)
+    run_checks(r, 'delta_history', chk_delta_history, [(''.join(rng.choice('STYKEDRG') for _ in range(rng.randint(6, 30))), rng.randint(0, 10 ** 6))
+                                                       for _ in range(count // 2)])
     return r
 
 
